@@ -12,6 +12,7 @@ func init() {
 			"(C04-b/-c) the classification is the four-row table (changed/unchanged/removed/added by presence of the two sides and equalConns), each row sets its own type constant and looks new/lost workloads up in the OTHER report's peers; the first report fills the first side; accessors return their own list and special-case added/removed; " +
 			"(C04-d) the pair key and the IP-merge grouping key are separator-joined (injective) concatenations of (src,dst) and (non-IP end, conn1, conn2); only key attributes are read from a group's representative and sides are re-inserted as they were; " +
 			"(C04-e) row equality is ConnectionSet.Equal on sets rebuilt from both rows, and Equal compares every map-valued field in both directions (DeepEqual, or equal lengths plus a lookup of every key where a missing key means unequal); " +
+			"(C04-mute) diff's two reports are computed by analyzers built with WithMuteErrsAndWarns, `list` computes its report un-muted: in every function the flag reaches, a statement whose execution depends on it only logs; " +
 			"(C04-f) in package diff a binding that belongs to one side (first/conn1/ref1/...) is never computed from the other side only. " +
 			"NOT decided: losslessness of refine + merge for every pair of partitions and every address (arithmetic over 2^32 points)."
 		rules.DiffSameRefinement(p, r, "C04-a")
@@ -21,5 +22,6 @@ func init() {
 		rules.PairRoleConsistency(p, r, "C04-f")
 		rules.DiffWorkloadKeyAgreement(p, r, "C04-g")
 		rules.AllowAllResetsMap(p, r, "C04-e-canon")
+		rules.MuteDecidesLoggingOnly(p, r, "C04-mute")
 	})
 }
